@@ -42,7 +42,7 @@ theorem step_inv (opt) (es : List Entry) (o : Obj) (op : Op) (inv : ObjInv opt e
       exact ⟨⟨rfl, hd, hf, ha, hel⟩, by rw [hel e hc]⟩
     | none =>
       simp only
-      by_cases hs : (stemsEntries o.entries).isEmpty = true
+      by_cases hs : o.entries.isEmpty = true
       · simp only [hs, if_true, elementsOf]
         refine ⟨⟨rfl, hd, hf, ha, ?_⟩, ?_⟩
         · intro e h; simp at h; simp [elementsOf, hs, ← h]
@@ -53,7 +53,7 @@ theorem step_inv (opt) (es : List Entry) (o : Obj) (op : Op) (inv : ObjInv opt e
         · simp
   | withoutIsolated =>
     simp only [step, answerFresh]
-    by_cases hs : (stemsEntries o.entries).isEmpty = true
+    by_cases hs : o.entries.isEmpty = true
     · simp only [hs, if_true]
       refine ⟨⟨rfl, hd, hf, ha, ?_⟩, rfl⟩
       intro e h
@@ -62,7 +62,7 @@ theorem step_inv (opt) (es : List Entry) (o : Obj) (op : Op) (inv : ObjInv opt e
       have : elementsOf o.entries (opt o.entries) = .ok [] := by simp [elementsOf, hs]
       rw [this]
       exact getD_of_inv (v := (Except.ok [] : Except Err (List String))) (fun d hd' => by rw [hel d hd', this])
-    · have hs' : (stemsEntries o.entries).isEmpty = false := by simpa using hs
+    · have hs' : o.entries.isEmpty = false := by simpa using hs
       simp only [hs', Bool.false_eq_true, ↓reduceIte, getD_of_inv hd]
       refine ⟨⟨rfl, by simp, hf, ha, ?_⟩, by first | trivial | rfl | simp⟩
       intro e h
